@@ -18,6 +18,15 @@ checks={
  "C13":dict(engine="E2+E3",cat="model_checking",tech=ES+"; "+E3T,
    text="BFS over add/set/get/add-all/to-array histories of the five typed lists (every constructor capacity, indices at -1/0/size-1/size/cap-1/cap, bulk adds across the grow-by-half steps, wire round trip in every state) and of the linked list against slice models; every array up to length 5 (7) over a 4-value alphabet sorted in both directions alone and with every child list of every type; every index list up to length 3 (4) for filtering",
    note="NaN excluded as the property says; string<->number conversions judged only for parse-back equality",ref="DESIGN.md 4 C13"),
+ "C14":dict(engine="E2+E3",cat="model_checking",tech=ES+"; "+E3T,
+   text="for every precision 4..16: BFS to a fixpoint over Offer/OfferLong sequences of a colliding item alphabet with state key GetBytes(), every state compared with the byte form of an independent reference counter of the set offered (so order and duplicates cannot matter), rebuild from bytes preserves state and estimate; Merge/AddAll of every pair (triple) of subsets equals the union counter and leaves inputs untouched; every item of a 2^20..2^24 range (2^24..2^32 thorough) updates exactly the reference register with the reference rank; estimate within bound on three deterministic families up to 6m items",
+   note="the estimate clause is statistical: checked on deterministic families with stated generous constants",ref="DESIGN.md 4 C14"),
+ "C15":dict(engine="E3",cat="exploration",tech=E3T,
+   text="Hash == CRC-32/IEEE, Hash64/Hash64v2 == reference CRC variants, Hash64v2 == Hash64V2, murmur 32/64 == independent re-implementations, HashCode == polynomial, on every byte string of length <= 2 (3 thorough) and 1200 longer family members; MurmurHash on 2^24 (2^32) integers; base-32 identifier text is a bijection with the documented forms on [-2^20,2^20] (2^26), +-32^k+-64 and extremes; compose/split and IPv4 conversions are mutual inverses; SHA-256 digests of the output tables pin the values",
+   note="murmur references are re-implementations (no external spec offline); golden digests were taken from the pinned tree",ref="DESIGN.md 4 C15"),
+ "C19":dict(engine="E3",cat="exploration",tech=E3T,
+   text="every day of 2000-2099 x 16 boundary instants (thorough: every second of the century): all calendar helpers equal time.Time in UTC and the unit functions equal floor((t-base)/step); every pattern up to length 4 (5) over the seven field letters and five literals x 40 instants x 6 clock answers: Parse(FormatTime(t)) agrees with t on every field present in the pattern",
+   note="fields absent from a pattern come from the clock and are not compared; clock is an enumerated environment answer through the vtime seam",ref="DESIGN.md 4 C19"),
  "C20":dict(engine="E3",cat="exploration",tech=E3T,
    text="every ordered pair and every triple of a universe of ~500 values (all 20 types, nil vs empty payloads, summaries differing in one field, containers of equal size with different keys / orders / element types) is evaluated on the real Equals/CompareTo: totality, reflexivity, equality with the decoded copy, symmetry, transitivity, sign reversal, zero-iff-equal for scalars, type-consistent cross-type order",
    note="NaN only for totality; known findings (map comparison has no canonical order) are listed in known_findings.jsonl",ref="DESIGN.md 4 C20"),
